@@ -12,9 +12,7 @@
 //	                               is saved (wire encoding) and loaded again and <v> is GetCANID
 //	                               of the message in the loaded network (`-` when the message is
 //	                               not attached to a bus and hence not saved, `skip` when the
-//	                               final state is not expressible in a save file,
-//	                               `default-builder-edits-not-saved` when the recorded saver
-//	                               finding of that name hit this message)
+//	                               final state is not expressible in a save file)
 package main
 
 import (
@@ -404,7 +402,7 @@ func (s *state) runB(family string, edits []edit, triples []triple) {
 
 // ---------------------------------------------------------------- W cases
 type wop struct {
-	c string // P S D N At De DeA Bg+ Bg- Ba Br BrA Ri Na Nr Ba2 Br2 Sb SbB Ed
+	c string // P S D N At De DeA Bg+ Bg- Ba Br BrA Ri Na Nr Ba2 Br2 Sb SbB SbN Ed
 	v uint32
 	i int
 	e edit
@@ -498,7 +496,9 @@ func (s *state) runW(mid, nid uint32, npool int, ops []wop) {
 	for i := 0; i < npool; i++ {
 		pool = append(pool, acmelib.NewCANIDBuilder(fmt.Sprintf("pool_%d", i)))
 	}
-	defaultPristine := true // pool[0] is the bus's own default builder, not edited so far
+	// pool[0] is the bus's own default builder; SetCANIDBuilder(nil) appends further default
+	// builders; pristine: a default builder nobody has edited so far
+	pristine := map[int]bool{0: true}
 	curBuilder := 0
 
 	// ledger of what the harness did successfully
@@ -569,6 +569,17 @@ func (s *state) runW(mid, nid uint32, npool int, ops []wop) {
 		case "SbB":
 			busB.SetCANIDBuilder(pool[o.i])
 			ownDefault["busB"] = false
+		case "SbN":
+			// nil: the bus goes back to a (new) default builder, reachable through CANIDBuilder()
+			bus.SetCANIDBuilder(nil)
+			if bus.CANIDBuilder() == nil {
+				s.fail("nil-builder-not-replaced", fmt.Sprintf("after SetCANIDBuilder(nil) the bus has no builder; case %s", input))
+				panic("bus without builder")
+			}
+			pool = append(pool, bus.CANIDBuilder())
+			curBuilder = len(pool) - 1
+			pristine[curBuilder] = true
+			ownDefault["bus"] = true
 		case "Ba2":
 			err = bus.AddNodeInterface(iface2)
 			if err == nil {
@@ -595,9 +606,7 @@ func (s *state) runW(mid, nid uint32, npool int, ops []wop) {
 			ownDefault["bus"] = false
 		case "Ed":
 			_, err = applyEdit(pool[o.i], o.e)
-			if o.i == 0 {
-				defaultPristine = false
-			}
+			pristine[o.i] = false
 		}
 		flag := "K"
 		if err != nil {
@@ -641,7 +650,7 @@ func (s *state) runW(mid, nid uint32, npool int, ops []wop) {
 		} else if attached && hasStatic {
 			st = "static-on-interface"
 		}
-		if st == "on-bus" && curBuilder == 0 && defaultPristine {
+		if st == "on-bus" && pristine[curBuilder] {
 			s.hist["getcanid/on-bus-default-builder"]++
 			if got >= 1<<11 {
 				s.fail("default-11bit", fmt.Sprintf("after %s: GetCANID=%#x >= 2^11 with the bus's default builder [%s]; case %s", o, got, opsString(bus.CANIDBuilder()), input))
@@ -777,10 +786,7 @@ func (s *state) saveLoad(net *acmelib.Network, primary *acmelib.Message, primary
 	if !primarySaved {
 		return "-"
 	}
-	if primaryKnown {
-		// reported above (PROPFAIL); marked so that the model comparison does not count it again
-		return "default-builder-edits-not-saved"
-	}
+	_ = primaryKnown
 	if v, ok := got["bus/node/"+primary.Name()]; ok {
 		return strconv.FormatUint(uint64(v), 10)
 	}
@@ -1231,13 +1237,17 @@ func generate(s *state, r *rng, thorough bool) {
 				}
 			case x < 16:
 				// replace the builder of the bus mid-history; the second bus may share it
-				if r.below(3) == 0 {
-					ops = append(ops, wop{c: "SbB", i: r.below(npool + 1)})
-				} else {
-					ops = append(ops, wop{c: "Sb", i: r.below(npool + 1)})
+				switch r.below(6) {
+				case 0, 1:
+					ops = append(ops, wop{c: "SbB", i: r.below(len(lens))})
+				case 2:
+					ops = append(ops, wop{c: "SbN"})
+					lens = append(lens, 3) // the new default builder has three operations
+				default:
+					ops = append(ops, wop{c: "Sb", i: r.below(len(lens))})
 				}
 			default:
-				bi := r.below(npool + 1)
+				bi := r.below(len(lens))
 				e := r.randomEdit(lens[bi], 10)
 				if lens[bi] >= 8 && (e.c == 'U' || e.c == 'A' || e.c == 'I') {
 					e = edit{c: 'R', idx: r.below(lens[bi])}
